@@ -1,4 +1,4 @@
-CONSTANT Fams = {"var", "pn", "frame", "ackraw", "close", "tp", "pkt", "token", "cidgen", "b2", "b4"}
+CONSTANT Fams = {"var", "pn", "frame", "ackraw", "close", "tp", "pkt", "token", "tokenraw", "cidgen", "b2", "b4"}
 CONSTANT W = 4
 CONSTANT Scale = "quick"
 SPECIFICATION Spec
